@@ -69,8 +69,8 @@ CLAIMS = {
  "C10": mc("paired symbolic execution (z3 UFLRA) of the real problem layer on a statement and its restatement sharing the same uninterpreted user functions; assertion: identical Problem interface",
    "For each restatement pair - fixed variables left in / eliminated by hand (1 and 2 fixed), Bounds / (n,2) array, NonlinearConstraint / dict (ineq, eq), one two-sided / two one-sided (linear, nonlinear), grouped / ungrouped (linear, nonlinear), scale=True / explicitly rescaled unit-box problem (n<=2) - with symbolic bounds, x0, limits and internal point, z3 proves the interface the solver sees is identical: n, x0, bounds, a_ub/b_ub/a_eq/b_eq row by row, type and counts, the values and violation returned for ANY internal point, and the user-space image of the returned point. 'Same sequence of evaluated points and result' follows because TrustRegion/Models touch the problem only through that interface and are deterministic (code-structure argument, stated assumption).",
    TRUSTED + "Two one-sided constraints are written in the order the internal form lists them (nonlinear: lower then upper; linear: upper then lower); two-sided grouped/ungrouped regrouping (which permutes internal rows) is in the thorough tier only and reported as representation difference. The residual clause is covered by C17/C02 checks in H-PB.", "5/C10"),
- "C11": mc("bounded symbolic execution of whole runs (z3 LRA); deep copies of the arguments before/after",
-   "PARTIAL: on every control-flow path x0 and the options dict are unchanged after the call. Determinism of repeated calls, nesting and thread schedules are not covered by this check (thread interleavings cannot be ranged over by a solver encoding of this code).",
+ "C11": mc("bounded symbolic execution of whole runs (z3 LRA): argument copies before/after, a second (and a nested) call on the same path fed from a tape of the first call's values and choices, snapshot of module/class-level containers; interleaved interpolation sets in the model harness",
+   "PARTIAL. On every control-flow path: x0, the options dict, the bounds arrays (also with NaN entries, Bounds object and (n,2) array) and the linear-constraint arrays are unchanged after the call; no module- or class-level container of the package changes during a call; a repeated call consumes the same values, evaluates the same points and returns the identical result; a call nested in the objective of another leaves the outer run unchanged; two interpolation sets driven alternately do not interfere (the 1.1.3 cache scenario, real build_system). NOT covered: interleavings of concurrent calls on a thread pool - a schedule of CPython threads inside numpy cannot be ranged over by a solver encoding of this code; the absence of shared mutable state shown above is the part within reach.",
    CTLNOTE, "5/C11, 6"),
 }
 NA_REASON = {
